@@ -20,6 +20,7 @@ import (
 type zzRuntimeClient struct {
 	client.Client
 	rt     *networkv1beta1.NodeRuntime
+	saved  *networkv1beta1.NodeRuntime
 	getErr bool
 }
 
@@ -28,6 +29,23 @@ func (c *zzRuntimeClient) Get(ctx context.Context, key client.ObjectKey, obj cli
 		return errZZAPI
 	}
 	c.rt.DeepCopyInto(obj.(*networkv1beta1.NodeRuntime))
+	return nil
+}
+
+// the write side: CreateOrPatch ends in Patch / Status().Patch; both record the object written
+func (c *zzRuntimeClient) Patch(ctx context.Context, obj client.Object, patch client.Patch, opts ...client.PatchOption) error {
+	c.saved = obj.(*networkv1beta1.NodeRuntime).DeepCopy()
+	return nil
+}
+func (c *zzRuntimeClient) Status() client.SubResourceWriter { return &zzRuntimeStatus{c: c} }
+
+type zzRuntimeStatus struct {
+	client.SubResourceWriter
+	c *zzRuntimeClient
+}
+
+func (s *zzRuntimeStatus) Patch(ctx context.Context, obj client.Object, patch client.Patch, opts ...client.SubResourcePatchOption) error {
+	s.c.saved = obj.(*networkv1beta1.NodeRuntime).DeepCopy()
 	return nil
 }
 
@@ -102,15 +120,16 @@ func zzCleanRuntimeNode(n int) {
 	}
 	cl := &zzRuntimeClient{rt: rt, getErr: n == 1 && zz.Bool("get.fails")}
 	svc.k8s = &zzRuntimeK8s{zzK8s: kc, cl: cl}
-	var saved *networkv1beta1.NodeRuntime
+	// engine-side summary of CreateOrPatch (its diffing goes through reflection): mutate, then write.
+	// Natively the real CreateOrPatch runs and ends in the same fake Patch calls.
 	zz.Override("sigs.k8s.io/controller-runtime/pkg/controller/controllerutil.CreateOrPatch", func(ctx context.Context, c client.Client, obj client.Object, f controllerutil.MutateFn) (controllerutil.OperationResult, error) {
 		if err := f(); err != nil {
 			return controllerutil.OperationResultNone, err
 		}
-		saved = obj.(*networkv1beta1.NodeRuntime).DeepCopy()
-		return controllerutil.OperationResultUpdated, nil
+		return controllerutil.OperationResultUpdated, c.Status().Patch(ctx, obj, nil)
 	})
 	err := svc.cleanRuntimeNode(context.Background(), local)
+	saved := cl.saved
 	if cl.getErr {
 		zz.Assert(err != nil && saved == nil, "nothing is written when the runtime record cannot be read")
 		return
@@ -129,6 +148,9 @@ func zzCleanRuntimeNode(n int) {
 		ai, ad := after.Status[networkv1beta1.CNIStatusInitial], after.Status[networkv1beta1.CNIStatusDeleted]
 		zz.Assert((ai != nil) == p.hasInit && (ai == nil || ai.LastUpdateTime.Time.Equal(p.tInit)), "the initial entry is never touched by the GC")
 		stamped := ad != nil && (!p.hasDeleted || !ad.LastUpdateTime.Time.Equal(p.tDel))
+		// liveness of the GC: a confirmed-gone, old, unowned initial record is marked
+		stale := !p.local && finalInitial && !p.tInit.Add(30*time.Second).After(now) && p.exist == 1 && (p.id == "ns/a" || p.id == "ns/b")
+		zz.Assert(zz.Implies(stale, stamped), "a stale initial record of a pod confirmed gone is marked deleted")
 		if stamped {
 			zz.Reach("marked deleted")
 			zz.Assert(!p.local, "a pod with a local resource record is never marked deleted by the GC")
@@ -138,10 +160,6 @@ func zzCleanRuntimeNode(n int) {
 			zz.Assert(p.id == "ns/a" || p.id == "ns/b", "a record with a malformed pod id is not marked")
 		} else {
 			zz.Assert((ad != nil) == p.hasDeleted, "a deleted entry is never removed by the GC")
-			// liveness of the GC: a confirmed-gone, old, unowned initial record is marked
-			if !p.local && finalInitial && !p.tInit.Add(30*time.Second).After(now) && p.exist == 1 && (p.id == "ns/a" || p.id == "ns/b") {
-				zz.Assert(false, "a stale initial record of a pod confirmed gone is marked deleted")
-			}
 		}
 	}
 	zz.Reach("saved")
